@@ -64,6 +64,8 @@ type OpSpec struct {
 	Bk   uint64 `json:"bk,omitempty"`
 	X    [][2]uint64 `json:"x,omitempty"` // extras (field code, value code), sorted by field
 	Elec *U128  `json:"elec,omitempty"`
+	Bad  bool   `json:"bad,omitempty"` // an enum field carries a number the schema does not define (v4, v6, nh)
+	RawNI string `json:"rawni,omitempty"` // network instance name outside the table (e.g. invalid UTF-8); model code 4 (unknown)
 }
 
 // KindProto maps the op kind.
@@ -84,6 +86,12 @@ func uv(v uint64) *ywrapper.UintValue { return &ywrapper.UintValue{Value: v} }
 // Proto builds the AFTOperation.
 func (o OpSpec) Proto() *spb.AFTOperation {
 	op := &spb.AFTOperation{Id: o.ID, NetworkInstance: NINames[o.NI], Op: o.KindProto()}
+	if o.RawNI != "" {
+		op.NetworkInstance = o.RawNI
+	}
+	if o.Kind == "OTHER" {
+		op.Op = spb.AFTOperation_Operation(7)
+	}
 	if o.Elec != nil {
 		op.ElectionId = o.Elec.Proto()
 	}
@@ -108,6 +116,9 @@ func (o OpSpec) Proto() *spb.AFTOperation {
 			if v, ok := xs[2]; ok {
 				e.DecapsulateHeader = enums.OpenconfigAftTypesEncapsulationHeaderType(v)
 			}
+			if o.Bad {
+				e.DecapsulateHeader = enums.OpenconfigAftTypesEncapsulationHeaderType(99)
+			}
 			k.Ipv4Entry = e
 		}
 		op.Entry = &spb.AFTOperation_Ipv4{Ipv4: k}
@@ -126,6 +137,9 @@ func (o OpSpec) Proto() *spb.AFTOperation {
 			}
 			if v, ok := xs[2]; ok {
 				e.DecapsulateHeader = enums.OpenconfigAftTypesEncapsulationHeaderType(v)
+			}
+			if o.Bad {
+				e.DecapsulateHeader = enums.OpenconfigAftTypesEncapsulationHeaderType(99)
 			}
 			k.Ipv6Entry = e
 		}
@@ -172,6 +186,9 @@ func (o OpSpec) Proto() *spb.AFTOperation {
 			if v, ok := xs[2]; ok {
 				e.MacAddress = &ywrapper.StringValue{Value: MACVals[v]}
 			}
+			if o.Bad {
+				e.EncapsulateHeader = enums.OpenconfigAftTypesEncapsulationHeaderType(99)
+			}
 			k.NextHop = e
 		}
 		op.Entry = &spb.AFTOperation_NextHop{NextHop: k}
@@ -199,6 +216,9 @@ func (o OpSpec) EntryCoq() string {
 		pl := "None"
 		if !o.Nil {
 			pl = fmt.Sprintf("(Some (mk_top %d %d %s))", o.NHG, o.NHGN, coqX(o.X))
+			if o.Bad && o.T != "mpls" {
+				pl = fmt.Sprintf("(Some {| t_nhg := %d; t_ni := %d; t_x := %s; t_bad := true |})", o.NHG, o.NHGN, coqX(o.X))
+			}
 		}
 		return fmt.Sprintf("ETop %s %d %s %s", tk, o.Key, valid, pl)
 	case "nhg":
@@ -211,6 +231,9 @@ func (o OpSpec) EntryCoq() string {
 		pl := "None"
 		if !o.Nil {
 			pl = fmt.Sprintf("(Some (mk_nh %s))", coqX(o.X))
+			if o.Bad {
+				pl = fmt.Sprintf("(Some {| h_x := %s; h_bad := true |})", coqX(o.X))
+			}
 		}
 		return fmt.Sprintf("ENh %d %s", o.Key, pl)
 	}
